@@ -13,9 +13,18 @@
                            (windows not cut by an old window ending at B; B = 0: all)
    Hypotheses: window size W > 0; clock readings of the key's own events are
    non-decreasing (they are taken under the state's mutex).
-   The model is the tree WITH patches/C09/fix-F-C09.patch. *)
+   The model is the tree WITH patches/C09/fix-F-C09.patch.
+
+   Last part (Registry.v): the registry layer as a small-step machine whose atomic steps are
+   the lock regions (plugin.mutex, RateLimitState.mutex, the limiter's mutex), threads =
+   requests and metrics collections:
+     run v (init_config ts) sch = Some c'   the labels of sch are a schedule of the threads ts
+     c_trace c'            one entry per decided request, in the order of the decisions
+     log_of k (c_log c')   the lock regions of the limiter of key k (requests: SInc, the
+                           Counter() of a collection: SPeek) with the clock readings taken inside
+     erase ts sch          the schedule without the steps of the collections *)
 From Coq Require Import List ZArith Bool Lia.
-From Verif Require Import C09.Model C09.Spec C09.Proofs C09.LimitRange.
+From Verif Require Import C09.Model C09.Spec C09.Proofs C09.LimitRange C09.Registry C09.RegistryProofs.
 Import ListNotations.
 Open Scope Z_scope.
 
@@ -235,4 +244,153 @@ Proof.
   cbn zeta. split.
   - eexists. eexists. split; [reflexivity|]. split; vm_compute; reflexivity.
   - vm_compute. reflexivity.
+Qed.
+
+(* ------------------------------------------------------------------ *)
+(** The registry layer under every interleaving of requests and metrics
+    collections (RateLimitState.getLimiterState / TryToIncrement / Counters() as coded at
+    HEAD, with OnRequest's and observeQuotaUsed's use of plugin.mutex). *)
+
+(* whatever the schedule, a limiter key sees exactly the single-limiter run of its own lock
+   regions: the concurrent machine refines the sequential model the theorems above are about *)
+Theorem C09_registry_refines : forall ts sch c' k,
+  forallb initial ts = true -> run Head (init_config ts) sch = Some c' -> key_valid k = true ->
+  entries_of k (c_trace c') = run_single None (log_of k (c_log c')).
+Proof. exact head_refines. Qed.
+Print Assumptions C09_registry_refines.
+
+(* per (remedy, group) and aligned window at most the scaled allowance proceeds, for every
+   interleaving; requests of the key carry the same window data, spill-over off *)
+Definition registry_bound (v : variant) : Prop :=
+  forall ts sch c' k wd,
+    forallb initial ts = true -> run v (init_config ts) sch = Some c' ->
+    mono (map l_now sch) -> key_valid k = true ->
+    0 < wW wd -> wSpillOn wd = false -> requests_use k wd ts ->
+    let L := scaled_quota (wAllowed wd) (wParts wd) in
+    (forall j, count (in_left (wW wd) j) (entries_of k (c_trace c')) <= L) \/
+    (forall j, count (in_right (wW wd) j) (entries_of k (c_trace c')) <= L).
+
+Theorem C09_registry_bound : registry_bound Head.
+Proof. intros ts sch c' k wd Hi HR HM Hk HW Hs HU L. right. eapply head_grid_bound_const; eassumption. Qed.
+Print Assumptions C09_registry_bound.
+
+(* "Counters() works on a snapshot of the map and afterwards drops the limiters it found
+   idle": a request that increments a limiter between the look and the removal is forgotten,
+   two requests proceed in one window with limit 1 (under either closure) *)
+Theorem C09_registry_bound_snapshot_prune_refuted : ~ registry_bound SnapshotPrune.
+Proof.
+  intros H. destruct snapshot_prune_witness as (c' & HR & _ & HcR & HcL).
+  destruct (H wit_threads wit_schedule c' wit_key wit_wd eq_refl HR) as [HB|HB];
+    try reflexivity; try (cbn; lia).
+  - repeat constructor.
+  - specialize (HB 1). change (wW wit_wd) with 10 in HB. rewrite HcL in HB. vm_compute in HB. apply HB. reflexivity.
+  - specialize (HB 1). change (wW wit_wd) with 10 in HB. rewrite HcR in HB. vm_compute in HB. apply HB. reflexivity.
+Qed.
+Print Assumptions C09_registry_bound_snapshot_prune_refuted.
+
+(* window data other than the size may vary from request to request *)
+Theorem C09_registry_grid_bound : forall ts sch c' k W,
+  forallb initial ts = true -> run Head (init_config ts) sch = Some c' ->
+  mono (map l_now sch) -> key_valid k = true -> 0 < W ->
+  const_window W (log_of k (c_log c')) ->
+  bounded_left W 0 (entries_of k (c_trace c')) \/ bounded_right W 0 (entries_of k (c_trace c')).
+Proof. intros. right. eapply head_grid_bound; eassumption. Qed.
+Print Assumptions C09_registry_grid_bound.
+
+(* a rejection means the allowance of the closed grid cell around it is used up -- also when
+   requests and collections overlap *)
+Theorem C09_registry_rejected_only_when_used_up : forall ts sch c' k W pre e post,
+  forallb initial ts = true -> run Head (init_config ts) sch = Some c' ->
+  mono_from 0 (map l_now sch) -> key_valid k = true -> 0 < W ->
+  const_window W (log_of k (c_log c')) ->
+  entries_of k (c_trace c') = pre ++ e :: post ->
+  s_verdict e = Block -> 0 < s_now e ->
+  exists j, in_closed W j (s_now e) = true /\ s_lim e <= count (in_closed W j) pre.
+Proof. intros. eapply head_rejected_used_up; eassumption. Qed.
+Print Assumptions C09_registry_rejected_only_when_used_up.
+
+(* groups are independent: what happens to a key depends on the lock regions of its own
+   limiter only, whatever the other threads are and do *)
+Theorem C09_registry_isolation : forall ts1 sch1 c1 ts2 sch2 c2 k,
+  forallb initial ts1 = true -> run Head (init_config ts1) sch1 = Some c1 ->
+  forallb initial ts2 = true -> run Head (init_config ts2) sch2 = Some c2 ->
+  key_valid k = true -> log_of k (c_log c1) = log_of k (c_log c2) ->
+  entries_of k (c_trace c1) = entries_of k (c_trace c2).
+Proof.
+  intros ts1 sch1 c1 ts2 sch2 c2 k H1 R1 H2 R2 Hk E.
+  rewrite (head_refines _ _ _ _ H1 R1 Hk), (head_refines _ _ _ _ H2 R2 Hk), E. reflexivity.
+Qed.
+Print Assumptions C09_registry_isolation.
+
+(* metrics collections are transparent for the control flow: without them the same request
+   steps are a schedule, the registry maps the same keys to the same states, and every key
+   sees its history minus the Counter() regions *)
+Theorem C09_metrics_keep_registry : forall ts sch c',
+  forallb initial ts = true -> run Head (init_config ts) sch = Some c' ->
+  exists c'', run Head (init_config ts) (erase ts sch) = Some c'' /\
+              c_map c'' = c_map c' /\
+              forall k, key_valid k = true ->
+                entries_of k (c_trace c'') = srun init (filter is_inc (log_of k (c_log c'))) /\
+                entries_of k (c_trace c') = srun init (log_of k (c_log c')).
+Proof. exact head_erase. Qed.
+Print Assumptions C09_metrics_keep_registry.
+
+(* "Counters() never changes a verdict" in full does not hold for this code: a Counter()
+   region opens the next window early, and a request exactly on the grid instant that ends
+   that window is then counted in it instead of opening a window of its own (limit 1,
+   window 10: requests at 5, 20, 21 with a collection at 15 all proceed; without the
+   collection the one at 21 is rejected).  Both behaviours respect the bound. *)
+Definition C09_metrics_read_only_full : Prop :=
+  forall ts sch c',
+    forallb initial ts = true -> run Head (init_config ts) sch = Some c' ->
+    mono_from 0 (map l_now sch) ->
+    exists c'', run Head (init_config ts) (erase ts sch) = Some c'' /\
+                map e_verdict (c_trace c'') = map e_verdict (c_trace c').
+
+Theorem C09_metrics_read_only_full_refuted : ~ C09_metrics_read_only_full.
+Proof.
+  intros H. destruct neutral_witness as (c1 & c2 & R1 & R2 & V1 & V2).
+  destruct (H nwit_threads nwit_schedule c1 eq_refl R1) as (c3 & R3 & V3); [cbn; lia|].
+  rewrite R2 in R3. injection R3 as <-. rewrite V1, V2 in V3. discriminate.
+Qed.
+Print Assumptions C09_metrics_read_only_full_refuted.
+
+(* outside that boundary case (no lock region of the key reads a grid instant) erasing the
+   collections leaves every verdict and limit of the key unchanged *)
+Theorem C09_metrics_read_only_holds_outside_grid_instants : forall ts sch c' k wd,
+  forallb initial ts = true -> run Head (init_config ts) sch = Some c' ->
+  mono_from 0 (map l_now sch) -> key_valid k = true ->
+  0 < wW wd -> wSpillOn wd = false -> requests_use k wd ts ->
+  Forall (fun e => sev_now e mod wW wd <> 0) (log_of k (c_log c')) ->
+  exists c'', run Head (init_config ts) (erase ts sch) = Some c'' /\
+              c_map c'' = c_map c' /\
+              entries_of k (c_trace c'') = entries_of k (c_trace c').
+Proof. exact head_metrics_neutral. Qed.
+Print Assumptions C09_metrics_read_only_holds_outside_grid_instants.
+
+(* lock order plugin.mutex -> RateLimitState.mutex -> limiter mutex: from every state an
+   interleaving can reach, some step is possible as long as a thread is unfinished *)
+Theorem C09_registry_no_deadlock : forall ts sch c',
+  forallb initial ts = true -> run Head (init_config ts) sch = Some c' ->
+  existsb (fun t => negb (finished t)) (c_threads c') = true ->
+  exists l c'', step Head c' l = Some c''.
+Proof.
+  intros ts sch c' Hi HR HU. apply head_progress; [|exact HU].
+  eapply run_head_not_releasing; [exact HR|]. apply initial_not_releasing. exact Hi.
+Qed.
+Print Assumptions C09_registry_no_deadlock.
+
+(* non-vacuity: the schedule of the refutation is not a schedule of the HEAD machine (the
+   request waits for the registry); when the collection is over the request is counted on the
+   registered state and the follow-up request is rejected *)
+Example C09_registry_example :
+  forallb initial wit_threads = true /\ mono (map l_now wit_schedule_head) /\
+  requests_use wit_key wit_wd wit_threads /\
+  run Head (init_config wit_threads) wit_schedule = None /\
+  exists c', run Head (init_config wit_threads) wit_schedule_head = Some c' /\
+             map (fun e => (s_now e, s_verdict e)) (entries_of wit_key (c_trace c')) =
+               [(1, Proceed); (11, Proceed); (12, Block)].
+Proof.
+  split; [reflexivity|]. split; [cbn; lia|]. split; [repeat constructor|].
+  split; [exact head_blocks_witness | exact head_witness].
 Qed.
